@@ -111,16 +111,14 @@ func c07(c *Ctx) {
 				if c.Expect(dv != nil && dv.Call.StaticCallee() == c.fn("internal/grpcutil", "div"), r, enc, "digits-from-div", "digits are not div(t, unit)") {
 					c.ArgIs(dv, 1, "divisor-matches-letter-"+letter, ConstInt(want))
 					c.ArgIs(dv, 0, "divides-the-duration", ParamV("t"))
+					if letter != "H" {
+						// the rounded-up quotient that is printed fits 8 digits (the last unit needs no test: MaxInt64 hours < 10^8)
+						c.MustFactAny(r, "at-most-8-digits", CmpInt(func(v ssa.Value) bool { return v == ssa.Value(dv) }, token.LEQ, 99999999), CmpInt(ParamV("t"), token.LEQ, 99999999*want))
+					}
 				}
 			}
 		}
 		c.Expect(n == 6, nil, enc, "six-units", "expected six unit arms in the encoder")
-		// digits fit the 8-digit limit on every arm but the last
-		for _, r := range returnsOf(enc) {
-			if b, ok := r.Results[0].(*ssa.BinOp); ok && !ConstStr("H")(b.Y) {
-				c.MustFact(r, "at-most-8-digits", Cmp(CallRes(Callee("internal/grpcutil", "div"), 0), token.LEQ, ConstOfObj(c.konst("internal/grpcutil", "maxTimeoutValue"))))
-			}
-		}
 	})
 	c.Ob("hour-clamp-and-ceil", "R2", "decoder: the product is not computed for hours above the representable maximum (returns MaxInt64 instead); encoder: div adds one exactly when the remainder is positive", 4, func() {
 		f := c.fn(tr, "decodeTimeout")
